@@ -125,7 +125,7 @@ func vdRun(p int, c *config.Config) (exit bool, r *Runner) {
 	return err == ErrExit, r
 }
 
-var vdRuleNames = []string{"", "subroutine/boilerplate-macro", "unused/subroutine", "restart-statement/scope", "unset-statement/syntax"}
+var vdRuleNames = []string{"", "subroutine/boilerplate-macro", "unused/declaration", "restart-statement/scope", "unset-statement/syntax"}
 var vdLevels = []string{"ERROR", "WARNING", "info", "IGNORE", "garbage"}
 
 func VerifLintVerdict() {
